@@ -244,6 +244,27 @@ def _l5(ctx):
             ctx.check(not fwd, R, fi, r, f"`{norm(r)}` returns the child's answer even when it is the caller's default: the first nested branch that does not hold the name ends the search, "
                       "so a Fork whose compute comes after a nested branch is judged not to contain it and is skipped when flattening", "recursive call raises on a miss (caught), so the search goes on")
     ctx.require(n >= 1, R, "recursive find call in the child loop")
+    # no branch child is skipped without being searched: a `continue` in the child loop may only be taken for leaves
+    from .c26 import _eval_guard
+    elem = loops[0].target.id if isinstance(loops[0].target, ast.Name) else None
+    ctx.require(elem is not None, R, "child loop variable")
+    branch_classes = sorted(c for c in ctx.repo.subclasses().get("Branch", set()) | {"Branch"} if c in ("Branch", "Hierarchical", "Fork", "Array") or ctx.repo.is_subclass(c, "Branch"))
+    for skip in [x for x in ast.walk(loops[0]) if isinstance(x, ast.If) and any(isinstance(b, ast.Continue) for b in x.body)]:
+        # the guard with name comparisons taken as "may be true" (the name of a branch never equals a leaf's name being looked for)
+        class _NameTrue(ast.NodeTransformer):
+            def visit_Compare(self, n):
+                return ast.copy_location(ast.Constant(True), n)
+        import copy as _copy
+        g = _NameTrue().visit(_copy.deepcopy(skip.test))
+        bad_for = []
+        for cls in branch_classes:
+            try:
+                if _eval_guard(ctx.repo, g, elem, cls):
+                    bad_for.append(cls)
+            except Exception:
+                ctx.require(False, R, f"skip guard `{norm(skip.test)[:80]}` in the child loop of find")
+        ctx.check(not bad_for, R, fi, skip, f"`{norm(skip.test)[:90]}` skips children of class {bad_for} without searching them: a compute inside a plain nested Hierarchical (inside a Fork) is never found, the Fork is judged not to contain it and is dropped from the flattened path",
+                  "only leaves are skipped without a recursive search")
     tail = [s for s in fi.node.body if isinstance(s, ast.If) and dflt in norm(s.test)]
     ctx.check(len(tail) >= 1, R, fi, tail[0] if tail else fi.node, "the default is not returned after all children were searched", "default returned only after the whole loop")
     ctx.floor(R, 2)
